@@ -63,6 +63,7 @@ def run_history(out, solver, hist, d, nx, nrho, nsc, reuse):
         adaptive = True
         s.ok('h_sys_stepping', [s.obj[0], 1, 5, 0])
         texp = ti
+        tini_exp = ti
         ndt = 0
         for step, op in enumerate(hist):
             where = 'step %d (%s) of %s' % (step, op, desc)
@@ -158,10 +159,18 @@ def run_history(out, solver, hist, d, nx, nrho, nsc, reuse):
                 s.ok('h_sys_ini', [obj, cfg[0], cfg[1], cfg[2], cfg[3], ti2])
                 s.write_state(cur, cfg[0], cfg[1], cfg[2], cfg[3], prefix='q')
                 texp = ti2
+                tini_exp = ti2
                 t0 = s.ok('h_sys_get_t', [obj])
                 if t0 is not ti2 or s.ok('h_sys_get_tini', [obj]) is not ti2:
                     dec.candidate(key + ':reini', 're-initialisation does not start a fresh clock at %s' % where, **info)
                     return s
+            # after every operation: the object in use still reports the initial time it was given and the accumulated clock
+            tin = s.ok('h_sys_get_tini', [s.obj[cur]])
+            tcl = s.ok('h_sys_get_t', [s.obj[cur]])
+            if differs(tin, tini_exp, 'Get_t_initial() is the initial time of the problem after any operation') or differs(tcl, texp, 'Get_t() = t_ini + sum dt after any operation (incl. moves)'):
+                dec.candidate(key + ':tini', 'after %s the solver reports t_ini = %s and t = %s, expected %s and %s: elapsed time t - t_ini is no longer the sum of the segments' % (
+                    where, T.show(tin, 3), T.show(tcl, 3), T.show(tini_exp, 3), T.show(texp, 3)), **info)
+                return s
         r = s.call('h_sys_destroy', [s.obj[cur]])
         if r.status != 'ok':
             dec.candidate(key + ':destroy', 'destroying the solver after the history: %r' % (r.info,), **info)
@@ -204,7 +213,7 @@ mem=[ctypes.create_string_buffer(8192),ctypes.create_string_buffer(8192)]
 P=[ctypes.c_void_p(ctypes.addressof(m)) for m in mem]
 V=ctypes.c_void_p; U=ctypes.c_uint; Dd=ctypes.c_double
 lib.h_sys_ctor.argtypes=[V,U,U,U,U,Dd]; lib.h_sys_ini.argtypes=[V,U,U,U,U,Dd]; lib.h_sys_evolve.argtypes=[V,Dd]
-lib.h_sys_get_t.restype=Dd; lib.h_sys_get_t.argtypes=[V]; lib.h_sys_switches.argtypes=[V,U,U]; lib.h_sys_stepping.argtypes=[V,U,U,U]
+lib.h_sys_get_t.restype=Dd; lib.h_sys_get_t.argtypes=[V]; lib.h_sys_get_tini.restype=Dd; lib.h_sys_get_tini.argtypes=[V]; lib.h_sys_switches.argtypes=[V,U,U]; lib.h_sys_stepping.argtypes=[V,U,U,U]
 lib.h_sys_move_construct.argtypes=[V,V]; lib.h_sys_move_assign.argtypes=[V,V]; lib.h_sys_destroy.argtypes=[V]
 lib.h_sys_views.argtypes=[V,U,U,V]
 for f in ('h_sys_write','h_sys_read'): getattr(lib,f).argtypes=[V,U,U,U,U,V]
@@ -215,7 +224,7 @@ import random; rng=random.Random(3)
 def fill(p,nx):
     n=nx*(nrho*d*d+nsc); y=(Dd*n)(*[rng.uniform(-.5,.5) for _ in range(n)]); lib.h_sys_write(p,nx,d,nrho,nsc,y); return list(y)
 fill(P[0],nx); mask=1; lib.h_sys_switches(P[0],mask,0); adaptive=1; lib.h_sys_stepping(P[0],1,50,2)
-texp=ti; problems=[]
+texp=ti; tini=ti; problems=[]
 for step,op in enumerate(cfg['hist']):
     p=P[cur]
     if op in ('E','E0'):
@@ -242,8 +251,10 @@ for step,op in enumerate(cfg['hist']):
     elif op=='MA':
         lib.h_sys_ctor(P[1-cur],1,2,1,0,0.7); lib.h_sys_move_assign(P[1-cur],p); lib.h_sys_destroy(p); cur=1-cur
     elif op=='RI':
-        nx+=1; lib.h_sys_ini(p,nx,d,nrho,nsc,1.5); fill(p,nx); texp=1.5
+        nx+=1; lib.h_sys_ini(p,nx,d,nrho,nsc,1.5); fill(p,nx); texp=1.5; tini=1.5
         if lib.h_sys_get_t(p)!=1.5: problems.append('step %d: re-ini clock'%step)
+    q=P[cur]
+    if abs(lib.h_sys_get_tini(q)-tini)>1e-12 or abs(lib.h_sys_get_t(q)-texp)>1e-12: problems.append('step %d (%s): t_ini %.17g t %.17g expected %.17g %.17g'%(step,op,lib.h_sys_get_tini(q),lib.h_sys_get_t(q),tini,texp)); break
 print(json.dumps(problems))
 '''
     cfg = dict(hist=c['hist'], d=c['d'], nx=c['nx'], nrho=c['nrho'], nsc=c['nsc'])
